@@ -169,9 +169,8 @@ Section walk.
     intros a1 a2 P [W Wv]. unfold get_attrs. apply sorted_by_eq; try assumption; [apply str2_laws| |].
     - rewrite <- (Permutation_map (walk_attr o2) P). apply Permutation_refl'.
       apply map_ext_in. intros a Ha. apply walk_attr_eq. rewrite Forall_forall in Wv. now apply Wv.
-    - intros a b Ha Hb E. apply (NoDup_map_inj_on ra_eid (map (walk_attr o1) a1)); try assumption.
-      + rewrite map_map. exact W.
-      + unfold attr_key in E. now injection E.
+    - intros a b Ha Hb E. apply (NoDup_map_inj_on attr_key (map (walk_attr o1) a1)); try assumption.
+      rewrite map_map. exact W.
   Qed.
 
   Lemma walk_enum_eq : forall e1 e2, enum_equiv e1 e2 -> wf_enum e1 -> walk_enum o1 e1 = walk_enum o2 e2.
@@ -272,8 +271,7 @@ Section walk.
     { apply sorted_by_eq; try assumption; [apply str2_laws| |].
       - eapply (perm_map_equiv recv_equiv (fun rc => wf_attrs (rr_attrs rc))); try eassumption.
         intros; now apply walk_recv_eq.
-      - apply (key_inj_map recv_key rr_eid (walk_recv o1)); try reflexivity; [|assumption].
-        intros a b E. unfold recv_key in E. now injection E. }
+      - apply (key_inj_map recv_key recv_key (walk_recv o1)); try reflexivity; [auto|assumption]. }
     rewrite Hr.
     assert (Hs : map (walk_sig o1) (rm_sigs m1) = map (walk_sig o2) (rm_sigs m2)).
     { eapply (map_eq_Forall2 sig_equiv wf_sig); try eassumption.
@@ -290,8 +288,7 @@ Section walk.
     unfold walk_nif. rewrite E1, E2, E3, E4, (get_attrs_eq _ _ Pa Wa). f_equal.
     apply sorted_by_eq; try assumption; [apply zstr2_laws| |].
     - eapply (perm_map_equiv msg_equiv wf_msg); try eassumption. intros; now apply walk_msg_eq.
-    - apply (key_inj_map msg_key rm_eid (walk_msg o1)); try reflexivity; [|assumption].
-      intros a b E. unfold msg_key in E. now injection E.
+    - apply (key_inj_map msg_key msg_key (walk_msg o1)); try reflexivity; [auto|assumption].
   Qed.
 
   Lemma walk_bus_eq : forall b1 b2, bus_equiv b1 b2 -> wf_bus b1 -> walk_bus o1 b1 = walk_bus o2 b2.
@@ -439,7 +436,7 @@ Lemma ex_rnet_wf : wf_net ex_rnet.
 Proof.
   split; [nodup_strings|].
   repeat (constructor; try (unfold wf_bus, wf_nif, wf_msg, wf_attrs, wf_enum; cbn [map rb_attrs rb_nifs rn_attrs rn_msgs rm_attrs rm_recv rm_sigs rr_attrs
-    ra_eid rn_id rm_eid rr_eid ex_rnet ex_m1 ex_m2 ex_a1 ex_a2 ev_index se_values ex_e1 ex_e2]));
+    ra_eid ra_name rm_id rm_name rr_name attr_key recv_key msg_key rn_id rm_eid rr_eid ex_rnet ex_m1 ex_m2 ex_a1 ex_a2 ev_index se_values ex_e1 ex_e2]));
     try nodup_strings; try (cbn; intuition (discriminate || lia)).
 Qed.
 
@@ -470,10 +467,21 @@ Proof.
   cbn [forallb] in H. apply andb_true_iff in H as [H1 H2]. constructor; auto.
 Qed.
 
+Lemma str2_eqb_eq : forall a b, str2_eqb a b = true <-> a = b.
+Proof.
+  intros [a1 a2] [b1 b2]. unfold str2_eqb. cbn [fst snd]. rewrite andb_true_iff, !String.eqb_eq.
+  split; [intros [-> ->]; reflexivity|intro E; injection E; auto].
+Qed.
+Lemma zstr2_eqb_eq : forall a b, zstr2_eqb a b = true <-> a = b.
+Proof.
+  intros [a1 a2] [b1 b2]. unfold zstr2_eqb. cbn [fst snd]. rewrite andb_true_iff, Z.eqb_eq, str2_eqb_eq.
+  split; [intros [-> ->]; reflexivity|intro E; injection E; auto].
+Qed.
+
 Lemma wf_attrsb_sound : forall l, wf_attrsb l = true -> wf_attrs l.
 Proof.
   intros l H. unfold wf_attrsb in H. apply andb_true_iff in H as [H1 H2]. split.
-  - apply (nodupb_sound String.eqb String.eqb_eq), H1.
+  - apply (nodupb_sound str2_eqb str2_eqb_eq), H1.
   - revert H2. apply forallb_Forall, Forall_forall. intros a _ Ha.
     apply (nodupb_sound Z.eqb Z.eqb_eq), Ha.
 Qed.
@@ -500,11 +508,292 @@ Proof.
   split; [now apply wf_attrsb_sound|]. split; [apply (nodupb_sound Z.eqb Z.eqb_eq), B2|].
   revert B3. apply forallb_Forall, Forall_forall. intros x _ Hx.
   unfold wf_nifb in Hx. apply andb_true_iff in Hx as [X1 X]. apply andb_true_iff in X as [X2 X3].
-  split; [now apply wf_attrsb_sound|]. split; [apply (nodupb_sound String.eqb String.eqb_eq), X2|].
+  split; [now apply wf_attrsb_sound|]. split; [apply (nodupb_sound zstr2_eqb zstr2_eqb_eq), X2|].
   revert X3. apply forallb_Forall, Forall_forall. intros m _ Hm.
   unfold wf_msgb in Hm. apply andb_true_iff in Hm as [M1 M]. apply andb_true_iff in M as [M2 M].
   apply andb_true_iff in M as [M3 M4].
-  split; [now apply wf_attrsb_sound|]. split; [apply (nodupb_sound String.eqb String.eqb_eq), M2|]. split.
+  split; [now apply wf_attrsb_sound|]. split; [apply (nodupb_sound str2_eqb str2_eqb_eq), M2|]. split.
   - revert M3. apply forallb_Forall, Forall_forall. intros rc _ Hrc. now apply wf_attrsb_sound.
   - revert M4. apply forallb_Forall, Forall_forall. intros s _ Hs. now apply wf_sigb_sound.
+Qed.
+
+(* ------------------------------------------------------------------ wf_netb is complete *)
+Lemma nodupb_complete : forall {A} (eqb : A -> A -> bool), (forall a b, eqb a b = true <-> a = b) ->
+  forall l, NoDup l -> nodupb eqb l = true.
+Proof.
+  intros A eqb Heq. induction 1 as [|x r Hx _ IH]; [reflexivity|]. cbn [nodupb]. rewrite IH, andb_true_r.
+  apply negb_true_iff. destruct (existsb (eqb x) r) eqn:E; [|reflexivity].
+  apply existsb_exists in E as [y [Hy Ey]]. apply Heq in Ey. subst y. contradiction.
+Qed.
+Lemma Forall_forallb : forall {A} (p : A -> bool) (P : A -> Prop) l,
+  Forall (fun x => P x -> p x = true) l -> Forall P l -> forallb p l = true.
+Proof.
+  induction 1 as [|x r Hx _ IH]; intro H; [reflexivity|]. inversion H; subst. cbn [forallb].
+  rewrite Hx, IH by assumption. reflexivity.
+Qed.
+Lemma wf_attrsb_complete : forall l, wf_attrs l -> wf_attrsb l = true.
+Proof.
+  intros l [H1 H2]. unfold wf_attrsb. rewrite (nodupb_complete str2_eqb str2_eqb_eq _ H1). cbn [andb].
+  revert H2. apply Forall_forallb, Forall_forall. intros a _ Ha. now apply (nodupb_complete Z.eqb Z.eqb_eq).
+Qed.
+Lemma wf_sigb_complete : forall s, wf_sig s -> wf_sigb s = true.
+Proof.
+  induction s as [h a n d r ty un|h a n d r sz en|h a n d r gc gs fx groups IH] using rsig_ind';
+    intro H; inversion H; subst; cbn [wf_sigb].
+  - now apply wf_attrsb_complete.
+  - rewrite wf_attrsb_complete by assumption. now apply (nodupb_complete Z.eqb Z.eqb_eq).
+  - rewrite wf_attrsb_complete by assumption. cbn [andb].
+    match goal with Hg : Forall (Forall wf_sig) groups |- _ => revert Hg end.
+    apply Forall_forallb. eapply Forall_impl; [|exact IH]. intros g Hg. now apply Forall_forallb.
+Qed.
+Lemma wf_netb_complete : forall r, wf_net r -> wf_netb r = true.
+Proof.
+  intros r [H1 H2]. unfold wf_netb. rewrite (nodupb_complete String.eqb String.eqb_eq _ H1). cbn [andb].
+  revert H2. apply Forall_forallb, Forall_forall. intros b _ (B1 & B2 & B3). unfold wf_busb.
+  rewrite (wf_attrsb_complete _ B1), (nodupb_complete Z.eqb Z.eqb_eq _ B2). cbn [andb].
+  revert B3. apply Forall_forallb, Forall_forall. intros x _ (X1 & X2 & X3). unfold wf_nifb.
+  rewrite (wf_attrsb_complete _ X1), (nodupb_complete zstr2_eqb zstr2_eqb_eq _ X2). cbn [andb].
+  revert X3. apply Forall_forallb, Forall_forall. intros m _ (M1 & M2 & M3 & M4). unfold wf_msgb.
+  rewrite (wf_attrsb_complete _ M1), (nodupb_complete str2_eqb str2_eqb_eq _ M2). cbn [andb].
+  apply andb_true_iff. split.
+  - revert M3. apply Forall_forallb, Forall_forall. intros rc _ Hrc. now apply wf_attrsb_complete.
+  - revert M4. apply Forall_forallb, Forall_forall. intros s _ Hs. now apply wf_sigb_complete.
+Qed.
+
+(* ------------------------------------------------------------------ sorting commutes with a monotone map *)
+Lemma StronglySorted_map_mono : forall {A} (R : A -> A -> Prop) (f : A -> A) l,
+  (forall a b, R a b -> R (f a) (f b)) -> StronglySorted R l -> StronglySorted R (map f l).
+Proof.
+  intros A R f l Hm. induction 1 as [|x r Hs IH Hf]; cbn [map]; constructor; [assumption|].
+  apply Forall_forall. intros y Hy. apply in_map_iff in Hy as [z [<- Hz]]. apply Hm.
+  rewrite Forall_forall in Hf. now apply Hf.
+Qed.
+
+Lemma sorted_by_map_commute : forall {A K} (key : A -> K) (kleb : K -> K -> bool) (f : A -> A)
+  (o1 o2 : oracle) s l, order_laws kleb -> valid o1 -> valid o2 ->
+  (forall a b, kleb (key a) (key b) = true -> kleb (key (f a)) (key (f b)) = true) ->
+  key_inj_on key (map f l) ->
+  sorted_by o2 s key kleb (map f l) = map f (sorted_by o1 s key kleb l).
+Proof.
+  intros A K key kleb f o1 o2 s l laws V1 V2 Hm Hinj. unfold sorted_by.
+  apply (sorted_perm_unique key kleb laws).
+  - apply isort_sorted; assumption.
+  - apply StronglySorted_map_mono; [exact Hm|apply isort_sorted; assumption].
+  - rewrite isort_perm', (V2 A s (map f l)). apply Permutation_map.
+    rewrite isort_perm', (V1 A s l). reflexivity.
+  - intros a b Ha Hb. apply Hinj; (eapply Permutation_in; [|eassumption]);
+      (rewrite isort_perm'; apply (V2 A s (map f l))).
+Qed.
+
+Lemma str2_erase_mono : forall n1 e1 n2 e2,
+  str2_leb (n1, e1) (n2, e2) = true -> str2_leb (n1, EmptyString) (n2, EmptyString) = true.
+Proof.
+  intros n1 e1 n2 e2. unfold str2_leb, lex_leb. cbn [fst snd].
+  destruct (String.eqb n1 n2); [reflexivity|auto].
+Qed.
+
+(* ------------------------------------------------------------------ the getters commute with erasing the ids *)
+Section erase.
+  Variables o1 o2 : oracle.
+  Hypothesis V1 : valid o1.
+  Hypothesis V2 : valid o2.
+
+  Lemma get_attrs_erase : forall l, wf_attrs (map erase_attr l) ->
+    get_attrs o2 (map erase_attr l) = map erase_attr (get_attrs o1 l).
+  Proof.
+    intros l [W Wv]. unfold get_attrs.
+    assert (E : map (walk_attr o2) (map erase_attr l) = map erase_attr (map (walk_attr o1) l)).
+    { rewrite !map_map. apply map_ext_in. intros a Ha.
+      assert (Hn : NoDup (map (@fst Z string) (ra_vals a))).
+      { rewrite Forall_forall in Wv. apply (Wv (erase_attr a)). now apply in_map. }
+      rewrite (walk_attr_eq o2 o1 V2 V1 (erase_attr a) Hn). reflexivity. }
+    rewrite E. apply sorted_by_map_commute; try assumption; [apply str2_laws| |].
+    - intros a b. unfold attr_key. cbn [erase_attr ra_name ra_eid]. apply str2_erase_mono.
+    - intros a b Ha Hb Ek. apply (NoDup_map_inj_on attr_key (map erase_attr (map (walk_attr o1) l))); try assumption.
+      rewrite !map_map. rewrite map_map in W. exact W.
+  Qed.
+
+  Lemma walk_sig_erase : forall s, wf_sig (erase_sig s) -> walk_sig o2 (erase_sig s) = erase_sig (walk_sig o1 s).
+  Proof.
+    induction s as [h a n d r ty un|h a n d r sz en|h a n d r gc gs fx groups IH] using rsig_ind';
+      intro Hw; cbn [erase_sig] in Hw; inversion Hw; subst; cbn [erase_sig walk_sig].
+    - f_equal. now apply get_attrs_erase.
+    - f_equal; [now apply get_attrs_erase|].
+      symmetry. apply walk_enum_eq; try assumption. apply enum_equiv_refl.
+    - f_equal; [now apply get_attrs_erase|].
+      match goal with Hg : Forall (Forall wf_sig) (map (map erase_sig) groups) |- _ => revert Hg end.
+      clear - IH. induction IH as [|g rest Hg _ IHr]; intro Hw; [reflexivity|].
+      cbn [map] in Hw. inversion Hw; subst. cbn [map]. f_equal; [|now apply IHr].
+      match goal with Hx : Forall wf_sig (map erase_sig g) |- _ => revert Hx end.
+      clear - Hg. induction Hg as [|x r' Hx _ IHg]; intro Hw; [reflexivity|].
+      cbn [map] in Hw. inversion Hw; subst. cbn [map]. f_equal; [now apply Hx|now apply IHg].
+  Qed.
+
+  Lemma walk_recv_erase : forall rc, wf_attrs (map erase_attr (rr_attrs rc)) ->
+    walk_recv o2 (erase_recv rc) = erase_recv (walk_recv o1 rc).
+  Proof. intros rc W. unfold walk_recv, erase_recv. cbn. f_equal. now apply get_attrs_erase. Qed.
+
+  Lemma walk_msg_erase : forall m, wf_msg (erase_msg m) -> walk_msg o2 (erase_msg m) = erase_msg (walk_msg o1 m).
+  Proof.
+    intros m (Wa & Wr & Wra & Ws). cbn [erase_msg rm_attrs rm_recv rm_sigs] in *.
+    unfold walk_msg, erase_msg. cbn. f_equal.
+    - now apply get_attrs_erase.
+    - assert (E : map (walk_recv o2) (map erase_recv (rm_recv m)) = map erase_recv (map (walk_recv o1) (rm_recv m))).
+      { rewrite !map_map. apply map_ext_in. intros rc Hrc. apply walk_recv_erase.
+        rewrite Forall_forall in Wra. apply (Wra (erase_recv rc)). now apply in_map. }
+      rewrite E. apply sorted_by_map_commute; try assumption; [apply str2_laws| |].
+      + intros a b. unfold recv_key. cbn [erase_recv rr_name rr_eid]. apply str2_erase_mono.
+      + intros a b Ha Hb Ek.
+        apply (NoDup_map_inj_on recv_key (map erase_recv (map (walk_recv o1) (rm_recv m)))); try assumption.
+        rewrite !map_map. rewrite map_map in Wr. exact Wr.
+    - rewrite !map_map. apply map_ext_in. intros s Hs. apply walk_sig_erase.
+      rewrite Forall_forall in Ws. apply Ws. now apply in_map.
+  Qed.
+
+  Lemma zstr2_erase_mono : forall i1 n1 e1 i2 n2 e2,
+    zstr2_leb (i1, (n1, e1)) (i2, (n2, e2)) = true ->
+    zstr2_leb (i1, (n1, EmptyString)) (i2, (n2, EmptyString)) = true.
+  Proof.
+    intros. unfold zstr2_leb, lex_leb in *. cbn [fst snd] in *.
+    destruct (Z.eqb i1 i2); [|assumption]. eapply str2_erase_mono. exact H.
+  Qed.
+
+  Lemma walk_nif_erase : forall x, wf_nif (erase_nif x) -> walk_nif o2 (erase_nif x) = erase_nif (walk_nif o1 x).
+  Proof.
+    intros x (Wa & Wn & Wm). cbn [erase_nif rn_attrs rn_msgs] in *.
+    unfold walk_nif, erase_nif. cbn. f_equal; [now apply get_attrs_erase|].
+    assert (E : map (walk_msg o2) (map erase_msg (rn_msgs x)) = map erase_msg (map (walk_msg o1) (rn_msgs x))).
+    { rewrite !map_map. apply map_ext_in. intros m Hm. apply walk_msg_erase.
+      rewrite Forall_forall in Wm. apply Wm. now apply in_map. }
+    rewrite E. apply sorted_by_map_commute; try assumption; [apply zstr2_laws| |].
+    - intros a b. unfold msg_key. cbn [erase_msg rm_id rm_name rm_eid]. apply zstr2_erase_mono.
+    - intros a b Ha Hb Ek.
+      apply (NoDup_map_inj_on msg_key (map erase_msg (map (walk_msg o1) (rn_msgs x)))); try assumption.
+      rewrite !map_map. rewrite map_map in Wn. exact Wn.
+  Qed.
+
+  Lemma walk_bus_erase : forall b, wf_bus (erase_bus b) -> walk_bus o2 (erase_bus b) = erase_bus (walk_bus o1 b).
+  Proof.
+    intros b (Wa & Wn & Wx). cbn [erase_bus rb_attrs rb_nifs] in *.
+    unfold walk_bus, erase_bus. cbn. f_equal; [now apply get_attrs_erase|].
+    assert (E : map (walk_nif o2) (map erase_nif (rb_nifs b)) = map erase_nif (map (walk_nif o1) (rb_nifs b))).
+    { rewrite !map_map. apply map_ext_in. intros x Hx. apply walk_nif_erase.
+      rewrite Forall_forall in Wx. apply Wx. now apply in_map. }
+    rewrite E. apply sorted_by_map_commute; try assumption; [apply Z_laws|auto|].
+    intros a c Ha Hc Ek.
+    apply (NoDup_map_inj_on rn_id (map erase_nif (map (walk_nif o1) (rb_nifs b)))); try assumption.
+    rewrite !map_map. rewrite map_map in Wn. exact Wn.
+  Qed.
+
+  Lemma walk_erase : forall r, wf_net (erase_net r) -> walk o2 (erase_net r) = erase_net (walk o1 r).
+  Proof.
+    intros r (Wn & Wb). cbn [erase_net rt_buses] in *. unfold walk, erase_net. cbn. f_equal.
+    assert (E : map (walk_bus o2) (map erase_bus (rt_buses r)) = map erase_bus (map (walk_bus o1) (rt_buses r))).
+    { rewrite !map_map. apply map_ext_in. intros b Hb. apply walk_bus_erase.
+      rewrite Forall_forall in Wb. apply Wb. now apply in_map. }
+    rewrite E. apply sorted_by_map_commute; try assumption; [apply string_laws|auto|].
+    intros a c Ha Hc Ek.
+    apply (NoDup_map_inj_on rb_name (map erase_bus (map (walk_bus o1) (rt_buses r)))); try assumption.
+    rewrite !map_map. rewrite map_map in Wn. exact Wn.
+  Qed.
+End erase.
+
+Lemma to_sig_erase : forall s, to_sig (erase_sig s) = to_sig s.
+Proof.
+  induction s as [h a n d r ty un|h a n d r sz en|h a n d r gc gs fx groups IH] using rsig_ind'; try reflexivity.
+  cbn [erase_sig to_sig]. f_equal. rewrite map_map.
+  induction IH as [|g rest Hg _ IHr]; [reflexivity|]. cbn [map]. f_equal; [|exact IHr].
+  rewrite map_map. induction Hg as [|x r' Hx _ IHg]; [reflexivity|]. cbn [map]. now rewrite Hx, IHg.
+Qed.
+Lemma to_net_erase : forall r, to_net (erase_net r) = to_net r.
+Proof.
+  intro r. unfold to_net, erase_net. cbn. f_equal. rewrite map_map. apply map_ext. intro b.
+  unfold to_bus, erase_bus. cbn. f_equal. rewrite map_map. apply map_ext. intro x.
+  unfold to_nif, erase_nif. cbn. f_equal. rewrite map_map. apply map_ext. intro m.
+  unfold to_msg, erase_msg. cbn. f_equal.
+  - rewrite map_map. reflexivity.
+  - rewrite map_map. apply map_ext. apply to_sig_erase.
+Qed.
+
+(* two builds of one model: equal up to the entity ids and the order of the map-like fields, and no
+   sort key falls back to the id (the id-erased networks are well-formed) *)
+Lemma build_order_free_mod_ids_lemma : forall o1 o2 r1 r2, valid o1 -> valid o2 ->
+  wf_net (erase_net r1) -> wf_net (erase_net r2) -> net_equiv (erase_net r1) (erase_net r2) ->
+  md_raw o1 r1 = md_raw o2 r2 /\ save_noids o1 r1 = save_noids o2 r2 /\ dbc_noids o1 r1 = dbc_noids o2 r2.
+Proof.
+  intros o1 o2 r1 r2 V1 V2 W1 W2 E.
+  assert (K : erase_net (walk o1 r1) = erase_net (walk o2 r2)).
+  { rewrite <- (walk_erase o1 o1 V1 V1 r1 W1), <- (walk_erase o2 o2 V2 V2 r2 W2).
+    now apply walk_eq. }
+  unfold md_raw, save_noids, dbc_noids. rewrite K. repeat split.
+  rewrite <- (to_net_erase (walk o1 r1)), K, to_net_erase. reflexivity.
+Qed.
+
+(* ------------------------------------------------------------------ wf_net is preserved by the key-changing mutators *)
+Lemma NoDup_map_update : forall {A K} (hd : A -> N) (key : A -> K) (upd : A -> A) (h : N) (new : K) l,
+  NoDup (map hd l) -> NoDup (map key l) -> ~ In new (map key l) ->
+  (forall x, key (upd x) = new) ->
+  NoDup (map key (map (fun x => if N.eqb (hd x) h then upd x else x) l)).
+Proof.
+  intros A K hd key upd h new. induction l as [|x r IH]; intros Hh Hk Hn Hu; [constructor|].
+  cbn [map] in *. inversion Hh as [|? ? Hxh Hrh]; subst. inversion Hk as [|? ? Hxk Hrk]; subst.
+  assert (Hn' : ~ In new (map key r)) by (intro; apply Hn; now right).
+  constructor; [|now apply IH].
+  rewrite map_map. intro Hin. apply in_map_iff in Hin as [y [Ey Hy]].
+  destruct (N.eqb (hd x) h) eqn:Ex.
+  - rewrite Hu in Ey. destruct (N.eqb (hd y) h) eqn:E2.
+    + apply N.eqb_eq in Ex, E2. apply Hxh. rewrite Ex, <- E2. now apply in_map.
+    + apply Hn'. rewrite <- Ey. now apply in_map.
+  - destruct (N.eqb (hd y) h) eqn:E2.
+    + rewrite Hu in Ey. apply Hn. left. now symmetry.
+    + apply Hxk. rewrite <- Ey. now apply in_map.
+Qed.
+
+Lemma mut_bus_name_wf : forall h new r, wf_net r -> NoDup (map rb_h (rt_buses r)) ->
+  ~ In new (map rb_name (rt_buses r)) -> wf_net (mut_bus_name h new r).
+Proof.
+  intros h new r [Wn Wb] Hh Hnew. unfold mut_bus_name. split; cbn [rt_buses].
+  - apply (NoDup_map_update rb_h rb_name _ h new); try assumption. reflexivity.
+  - apply Forall_forall. intros b Hin. apply in_map_iff in Hin as [b0 [<- Hb0]].
+    rewrite Forall_forall in Wb. specialize (Wb _ Hb0). destruct (N.eqb (rb_h b0) h); exact Wb.
+Qed.
+
+Lemma set_nif_id_wf : forall h new x, wf_nif x -> wf_nif (set_nif_id h new x).
+Proof. intros h new x W. unfold set_nif_id. destruct (N.eqb (rn_h x) h); exact W. Qed.
+
+(* Node.UpdateID is accepted only when the new id is free on every bus the node is attached to *)
+Lemma mut_node_id_wf : forall h new r, wf_net r ->
+  Forall (fun b => NoDup (map rn_h (rb_nifs b)) /\ ~ In new (map rn_id (rb_nifs b))) (rt_buses r) ->
+  wf_net (mut_node_id h new r).
+Proof.
+  intros h new r [Wn Wb] Hf. unfold mut_node_id. split; cbn [rt_buses].
+  - rewrite map_map. cbn [rb_name]. exact Wn.
+  - apply Forall_forall. intros b Hin. apply in_map_iff in Hin as [b0 [<- Hb0]].
+    rewrite Forall_forall in Wb, Hf. destruct (Wb _ Hb0) as (Wa & Wi & Wx). destruct (Hf _ Hb0) as [Hh Hnew].
+    split; [exact Wa|]. cbn [rb_nifs]. split.
+    + unfold set_nif_id. apply (NoDup_map_update rn_h rn_id _ h new); try assumption. reflexivity.
+    + apply Forall_forall. intros x Hx. apply in_map_iff in Hx as [x0 [<- Hx0]]. apply set_nif_id_wf.
+      rewrite Forall_forall in Wx. now apply Wx.
+Qed.
+
+(* ------------------------------------------------------------------ id-keyed ties on a model built twice *)
+Local Open Scope string_scope.
+Definition tie_net (e1 e2 : string) : rnet :=
+  {| rt_name := "net"; rt_desc := "";
+     rt_buses := [ {| rb_h := 40; rb_attrs := [ {| ra_h := 1; ra_name := "at"; ra_eid := e1; ra_vals := [] |};
+                                                {| ra_h := 2; ra_name := "at"; ra_eid := e2; ra_vals := [] |} ];
+                      rb_builder := None; rb_name := "bus"; rb_desc := ""; rb_baud := 0; rb_nifs := [] |} ] |}.
+
+Lemma build_order_ids_refuted_lemma :
+  wf_net (tie_net "a" "b") /\ wf_net (tie_net "b" "a")
+  /\ net_equiv (erase_net (tie_net "a" "b")) (erase_net (tie_net "b" "a"))
+  /\ ~ wf_net (erase_net (tie_net "a" "b"))
+  /\ save_noids o_id (tie_net "a" "b") <> save_noids o_id (tie_net "b" "a")
+  /\ dbc_noids o_id (tie_net "a" "b") <> dbc_noids o_id (tie_net "b" "a").
+Proof.
+  repeat split; try (apply wf_netb_sound; vm_compute; reflexivity).
+  - apply PermEquiv_refl, bus_equiv_refl.
+  - intro W. apply wf_netb_complete in W. vm_compute in W. discriminate W.
+  - vm_compute. intro H. discriminate H.
+  - vm_compute. intro H. discriminate H.
 Qed.
